@@ -311,6 +311,8 @@ class Inliner:
     def resolve(self, call: ast.Call, cls: Optional[str] = None):
         """(helper, receiver) for a call to a new helper"""
         f = call.func
+        if self.virtual(call, cls) is not None:
+            return None, None  # overridden in subclasses: only the statement-level isinstance chain is a faithful expansion
         if isinstance(f, ast.Attribute) and isinstance(f.value, ast.Name) and f.value.id in ("self", "cls") and cls is not None:
             h = self.lookup_method(cls, f.attr)
             if h is not None:
@@ -326,6 +328,44 @@ class Inliner:
             if h.kind in ("method", "class"):
                 return h, f.value
         return None, None
+
+    def is_subclass(self, c: str, d: str) -> bool:
+        seen, todo = set(), [c]
+        while todo:
+            x = todo.pop()
+            if x == d:
+                return True
+            if x in seen:
+                continue
+            seen.add(x)
+            todo += self.bases.get(x, [])
+        return False
+
+    def virtual(self, call: ast.Call, cls: Optional[str]):
+        """([(subclass, helper)] most derived first, default helper, receiver) for a call to a new method that has several
+        definitions in one class hierarchy; None when the call is not polymorphic (or not understood)"""
+        f = call.func
+        if not isinstance(f, ast.Attribute):
+            return None
+        defs = [(c, h) for (c, n), h in self.by_class.items() if n == f.attr and h.kind == "method"]
+        if len(defs) < 2:
+            return None
+        if isinstance(f.value, ast.Name) and f.value.id == "self" and cls is not None:
+            base = self.lookup_method(cls, f.attr)
+            if base is None:
+                return None
+            subs = [(c, h) for c, h in defs if h is not base and self.is_subclass(c, cls)]
+        else:
+            roots = [(c, h) for c, h in defs if all(self.is_subclass(c2, c) for c2, _ in defs)]
+            if len(roots) != 1:
+                return None
+            base = roots[0][1]
+            subs = [(c, h) for c, h in defs if h is not base]
+        if not subs:
+            return None
+        depth = lambda c: sum(1 for c2, _ in subs if c2 != c and self.is_subclass(c, c2))
+        subs.sort(key=lambda ch: -depth(ch[0]))
+        return subs, base, f.value
 
     # ------------------------------------------------------------------ forms
     def expr_form(self, h: Helper) -> Optional[ast.AST]:
@@ -500,12 +540,37 @@ class _Rewriter(ast.NodeTransformer):
                 return g
         if call is None:
             return [st]
+        poly = self.inl.virtual(call, self.cls[-1])
+        if poly is not None and not (set(x.name for _, x in poly[0]) | {poly[1].name}) & set(self.current):
+            # a method overridden in subclasses, called on a receiver whose class is not known: the isinstance chain it dispatches as
+            subs, base, recv_ = poly
+            arms = []
+            for _, hh in subs + [(None, base)]:
+                arm = self.stmt_with(copy.deepcopy(st), hh, recv_)
+                if arm is None:
+                    arms = None
+                    break
+                arms.append(arm)
+            if arms is not None:
+                chain = arms[-1]
+                for (cname, _), arm in reversed(list(zip(subs, arms[:-1]))):
+                    test = ast.Call(func=ast.Name(id="isinstance", ctx=ast.Load()), args=[copy.deepcopy(recv_), ast.Name(id=cname, ctx=ast.Load())], keywords=[])
+                    chain = [ast.copy_location(ast.If(test=test, body=arm or [ast.Pass()], orelse=chain), st)]
+                self.changed = True
+                return chain
+            return [st]
         h, recv = self.inl.resolve(call, self.cls[-1])
         if h is None or h.name in self.current or h.is_gen:
             return [st]
+        r = self.stmt_with(st, h, recv)
+        return [st] if r is None else r
+
+    def stmt_with(self, st, h, recv):
+        """the statement with its (top-level) call to helper `h` spliced in, or None if no statement form applies"""
+        call = st.value
         mp = self.inl.bind(h, call, recv)
         if mp is None:
-            return [st]
+            return None
         body = h.body
         # T: tail call
         if isinstance(st, ast.Return) and all(isinstance(n, ast.Return) and n.value is not None for n in ast.walk(ast.Module(body=body, type_ignores=[])) if isinstance(n, ast.Return)) and _ends_in_return(body):
@@ -541,7 +606,7 @@ class _Rewriter(ast.NodeTransformer):
             st2.value = ast.Name(id=resvar, ctx=ast.Load())
             self.changed = True
             return new + [st2]
-        return [st]
+        return None
 
     def fuse_generator(self, loop: ast.For):
         h, recv = self.inl.resolve(loop.iter, self.cls[-1])
@@ -670,7 +735,7 @@ def propagate_new_constants(trees: List[ast.AST], pinned_globals) -> bool:
                 return all(constlike(x, depth + 1) for x in e.elts)
             if isinstance(e, ast.Dict):
                 return all(k is not None and constlike(k, depth + 1) and constlike(v_, depth + 1) for k, v_ in zip(e.keys, e.values))
-            if isinstance(e, ast.Call) and isinstance(e.func, ast.Name) and (e.func.id in classes and e.func.id in bound or e.func.id in ("timedelta", "datetime", "frozenset", "tuple")):
+            if isinstance(e, ast.Call) and isinstance(e.func, ast.Name) and (e.func.id in classes and e.func.id in bound or e.func.id in ("timedelta", "datetime", "frozenset", "tuple", "attrgetter", "itemgetter")):
                 return all(constlike(a, depth + 1) for a in e.args) and all(k.arg is not None and constlike(k.value, depth + 1) for k in e.keywords)
             return False
 
